@@ -6,6 +6,7 @@
 //   early_close_flag     C02.blockencoder.read.close_flag_only_on_the_last_packet_of_the_transfer
 //   interleave_zero      C13.blockencoder.read.none_only_when_the_source_is_used_up / ...lone_packet...interleave_blocks_zero
 //   first_block_failed   C08.blockencoder.read.lone_packet_only_for_an_empty_object.first_block_failed
+//   stream_cursor        C20.objectdesc.len.is_the_whole_source_length_whatever_the_cursor (regression check, no finding)
 use super::*;
 use crate::common::oti::Oti;
 use crate::sender::objectdesc::{ObjectDesc, TransferConfig};
@@ -75,7 +76,12 @@ fn file_from_buffer(data: &[u8], oti: &Oti) -> Arc<filedesc::FileDesc> {
 }
 
 fn file_from_stream(data: &[u8], chunk: usize, fail_reads: bool, oti: &Oti) -> Arc<filedesc::FileDesc> {
-    let rd = ChunkReader { data: data.to_vec(), pos: 0, chunk, fail_reads };
+    file_from_stream_at(data, chunk, fail_reads, 0, oti)
+}
+
+/// the stream is handed over with its cursor at `start` (compute_md5 == false, so nothing rewinds it before len())
+fn file_from_stream_at(data: &[u8], chunk: usize, fail_reads: bool, start: usize, oti: &Oti) -> Arc<filedesc::FileDesc> {
+    let rd = ChunkReader { data: data.to_vec(), pos: start, chunk, fail_reads };
     let obj = ObjectDesc::create_from_stream(Box::new(rd), "application/octet-stream", &url(), false, TransferConfig::default()).unwrap();
     mk_file(obj, oti)
 }
@@ -132,6 +138,31 @@ fn check_stream_short_reads(l: usize, e: u16, b: u16, chunk: usize, interleave: 
             format!("{{\"case\":\"stream_short_reads\",\"l\":{},\"e\":{},\"b\":{},\"chunk\":{},\"interleave\":{}}}", l, e, b, chunk, interleave),
             format!("stream source (reads return <= {} bytes): {}", chunk, show(&from_stream)),
             format!("the packet sequence of the same bytes supplied as a buffer: {}", show(&from_buffer)),
+        );
+        return true;
+    }
+    false
+}
+
+/// C20 (ObjectDataSource::len): the announced transfer length and the packets do not depend on where the cursor of the
+/// stream was when the object was created
+fn check_stream_cursor(l: usize, e: u16, b: u16, start: usize) -> bool {
+    let oti = Oti::new_no_code(e, b);
+    let data = content(l);
+    let file = file_from_stream_at(&data, usize::MAX, false, start, &oti);
+    let tl = file.object.transfer_length;
+    let from_stream = drain(file, 1, true);
+    let from_buffer = drain(file_from_buffer(&data, &oti), 1, true);
+    if tl != l as u64 || from_stream != from_buffer {
+        let show = |r: &std::result::Result<Vec<P>, String>| match r {
+            Ok(ps) => short(ps),
+            Err(s) => s.clone(),
+        };
+        report(
+            "len",
+            format!("{{\"case\":\"stream_cursor\",\"l\":{},\"e\":{},\"b\":{},\"start\":{}}}", l, e, b, start),
+            format!("stream handed over at position {}: transfer_length {}, {}", start, tl, show(&from_stream)),
+            format!("transfer_length {} and the packets of the buffer source: {}", l, show(&from_buffer)),
         );
         return true;
     }
@@ -232,6 +263,8 @@ fn search() {
             check_stream_short_reads(num(&inp, "l"), num(&inp, "e") as u16, num(&inp, "b") as u16, num(&inp, "chunk"), num(&inp, "interleave"))
         } else if inp.contains("early_close_flag") {
             check_early_close_flag(num(&inp, "l"), num(&inp, "e") as u16, num(&inp, "b") as u8, num(&inp, "parity") as u8, num(&inp, "interleave"))
+        } else if inp.contains("stream_cursor") {
+            check_stream_cursor(num(&inp, "l"), num(&inp, "e") as u16, num(&inp, "b") as u16, num(&inp, "start"))
         } else if inp.contains("interleave_zero") {
             check_interleave_zero(num(&inp, "l"), num(&inp, "e") as u16, num(&inp, "b") as u16)
         } else {
@@ -243,7 +276,7 @@ fn search() {
     }
     let thorough = std::env::var("VERIF_TIER").map(|t| t == "thorough").unwrap_or(false);
     let mut evals: u64 = 0;
-    let mut found = [0usize; 4];
+    let mut found = [0usize; 5];
     let cap = 2;
 
     // the scenarios named in the report first
@@ -269,6 +302,10 @@ fn search() {
                         evals += 1;
                         if found[1] < cap && check_early_close_flag(l, e, b as u8, parity, interleave) { found[1] += 1; }
                     }
+                }
+                for start in [1usize, 3, l] {
+                    evals += 1;
+                    if found[4] < cap && check_stream_cursor(l, e, b, start) { found[4] += 1; }
                 }
                 evals += 2;
                 if found[2] < cap && check_interleave_zero(l, e, b) { found[2] += 1; }
